@@ -320,6 +320,14 @@ theorem operate_source_bare_minus (tr : Tr α) (pre : Str) (hp : PreOK pre) (e :
     operate tr (P ++ '-' :: Q) = operate tr (pre ++ src e) :=
   operate_bare_minus tr pre hp e h P Q hS hP
 
+/-- **front end `Track[expr]`**: when the (stripped) string contains one of the characters `+ - / * ^ > < ( ) = '`
+that `Track.__getitem__` looks for, `Track[expr]` is `Track.operate(expr)` — every statement above about `operate`
+then holds for `Track[…]`. (A string with none of them — a function call alone such as `SUM{a}`, a number alone — is
+taken for a feature name: see the examples below and the finding class `getitem-expression-taken-for-a-name`.) -/
+theorem getitem_is_operate (tr : Tr α) (s : Str) (hs : strip s = s)
+    (h : s.any (fun c => exprChars.contains c) = true) : getitemStr tr s = operate tr s := by
+  simp only [getitemStr, hs, h, if_true]
+
 /-! ## non-vacuity -/
 
 /-- the laws are those of exact arithmetic: rationals with a NaN element satisfy them -/
@@ -428,5 +436,12 @@ example : operate trEx "c=a/0".toList = (.error "err:zerodiv", trEx) := by
 /-- the new functions are part of the tree semantics: `DIODE{a}+ARGMAX{b}` on the toy scalar -/
 example : denoteM trEx (.bin '+' (.call ['D', 'I', 'O', 'D', 'E'] (.var ['a'])) (.call ['A', 'R', 'G', 'M', 'A', 'X'] (.var ['b'])))
     = .ok (.vec [3, 2, 6]) := by rfl
+
+/-- `Track["(a+b)*2"]` is `operate("(a+b)*2")`; but `Track["SUM{a}"]` looks up a feature called `SUM{a}` while
+`operate("SUM{a}")` evaluates it (the braces are not among the characters `__getitem__` tests) -/
+example : getitemStr trEx "(a+b)*2".toList = operate trEx "(a+b)*2".toList :=
+  getitem_is_operate trEx _ (by decide +kernel) (by decide +kernel)
+example : (getitemStr trEx "SUM{a}".toList).1.toOption = none ∧ (operate trEx "SUM{a}".toList).1.toOption = some (some [3, 3, 3]) := by
+  decide +kernel
 
 end TV.C02
